@@ -670,6 +670,15 @@ pub(crate) struct Mp4TrackWriter {
 
 impl Mp4TrackWriter {
     pub(crate) fn new(track_id: u32, config: &TrackConfig) -> Result<Self> {
+        if config.timescale == 0 {
+            return Err(Error::InvalidData("track timescale must not be zero"));
+        }
+        if let MediaConfig::AvcConfig(ref avc_config) = config.media_conf {
+            // profile, compatibility and level are taken from bytes 1..=3 of the SPS
+            if avc_config.seq_param_set.len() < 4 {
+                return Err(Error::InvalidData("sequence parameter set too short"));
+            }
+        }
         let mut trak = TrakBox::default();
         trak.tkhd.track_id = track_id;
         trak.mdia.mdhd.timescale = config.timescale;
